@@ -122,9 +122,9 @@ def _swap_value(p, depth):
 def _run(*a):
     if mode.REPLAY:
         return _roundtrip(*a)
-    from crosshair.core import realize
     from crosshair.tracers import NoTracing
-    b = [realize(x) for x in a]
+    from selpick import pick_all
+    b = pick_all(a)
     with NoTracing():
         return _roundtrip(*b)
 
